@@ -78,7 +78,7 @@ Proof.
     + apply NoDup_app_intro; [assumption|repeat constructor; intros []|].
       intros x Hx [<-|[]]. apply Hf. apply in_or_app. auto.
     + intros a Ha. apply in_app_or in Ha as [Ha|[<-|[]]]; [auto|].
-      intros Hl. apply Hf. apply in_or_app. auto.
+      intros Hl. apply Hf. apply in_or_app. right. apply in_or_app. auto.
 Qed.
 
 (* ------------------------------------------------------------------ through ExtractTypeRef *)
@@ -172,19 +172,6 @@ Proof.
   destruct s as [p [n|]]; simpl; [reflexivity|]. destruct (assoc (e_pkg_imports e) p); reflexivity.
 Qed.
 
-Lemma calc_imports_app e : forall l st,
-  NoDup (map i_path st ++ map fst l) ->
-  fold_left (fun t s => tset t (calc_import e s)) l st = (st ++ map (calc_import e) l)%list.
-Proof.
-  induction l as [|s r IH]; intros st Hnd; simpl; [symmetry; apply app_nil_r|].
-  assert (Hnew : tget st (i_path (calc_import e s)) = None).
-  { apply tget_none_path. rewrite calc_import_path. intros Hin.
-    apply NoDup_remove_2 in Hnd. apply Hnd. apply in_or_app. auto. }
-  rewrite (tset_new _ _ Hnew), IH.
-  - rewrite <- app_assoc. reflexivity.
-  - rewrite map_app. cbn [map]. rewrite calc_import_path, <- app_assoc. exact Hnd.
-Qed.
-
 Lemma nodupb_NoDup l : nodupb l = true <-> NoDup l.
 Proof.
   induction l as [|x r IH]; simpl; [split; [constructor|reflexivity]|].
@@ -193,19 +180,52 @@ Proof.
   - intros H. inversion H; subst. auto.
 Qed.
 
-(* a file that compiles (specs_okb, a predicate on the input) gives a good table *)
-Lemma calc_imports_ok e specs : specs_okb e specs = true ->
-  table_ok e (calc_imports e specs) /\
-  map i_alias (calc_imports e specs) = map (spec_name e) specs.
+(* a spec that overwrites an entry (same path imported again) replaces one name by another *)
+Lemma tset_aliases_In : forall st i a,
+  In a (map i_alias (tset st i)) -> a = i_alias i \/ In a (map i_alias st).
 Proof.
-  unfold specs_okb. rewrite !andb_true_iff. intros [[Hp Hn] Hl].
-  apply nodupb_NoDup in Hp, Hn. unfold calc_imports.
-  rewrite (calc_imports_app e specs []) by exact Hp. cbn [app].
-  assert (Hm : map i_alias (map (calc_import e) specs) = map (spec_name e) specs)
-    by (rewrite map_map; reflexivity).
-  split; [|exact Hm]. unfold table_ok. rewrite Hm. split; [assumption|].
-  intros a Ha. apply in_map_iff in Ha as [s [<- Hs]].
-  rewrite forallb_forall in Hl. specialize (Hl s Hs).
+  induction st as [|k r IH]; intros i a H; simpl in *.
+  - destruct H as [H|[]]; auto.
+  - destruct (String.eqb (i_path i) (i_path k)); simpl in H.
+    + destruct H as [H|H]; auto.
+    + destruct H as [H|H]; [auto|]. apply IH in H as [H|H]; auto.
+Qed.
+
+Lemma tset_aliases_NoDup : forall st i,
+  NoDup (map i_alias st) -> ~ In (i_alias i) (map i_alias st) -> NoDup (map i_alias (tset st i)).
+Proof.
+  induction st as [|k r IH]; intros i Hnd Hni; simpl in *.
+  - repeat constructor. intros [].
+  - inversion Hnd as [|? ? Hk Hr]; subst.
+    destruct (String.eqb (i_path i) (i_path k)); simpl.
+    + constructor; [|assumption]. intros H. apply Hni. right. assumption.
+    + constructor.
+      * intros H. apply tset_aliases_In in H as [H|H]; [|auto]. apply Hni. left. auto.
+      * apply IH; [assumption|]. intros H. apply Hni. right. assumption.
+Qed.
+
+(* a file that compiles (specs_okb, a predicate on the input; one path may be imported several
+   times) gives a good table: the later spec of a path wins, names stay pairwise distinct *)
+Lemma calc_imports_ok e specs : specs_okb e specs = true -> table_ok e (calc_imports e specs).
+Proof.
+  unfold specs_okb. rewrite andb_true_iff. intros [Hn Hl]. apply nodupb_NoDup in Hn.
+  unfold calc_imports.
+  assert (G : forall l st, NoDup (map (spec_name e) l) ->
+            (forall s, In s l -> ~ In (spec_name e s) (e_locals e)) ->
+            NoDup (map i_alias st) ->
+            (forall a, In a (map i_alias st) -> ~ In a (map (spec_name e) l) /\ ~ In a (e_locals e)) ->
+            table_ok e (fold_left (fun t s => tset t (calc_import e s)) l st)).
+  { induction l as [|s r IH]; intros st Hnd Hloc Hst Hdis; cbn [fold_left].
+    - split; [assumption|]. intros a Ha. apply (Hdis a Ha).
+    - cbn [map] in Hnd. inversion Hnd as [|? ? Hs Hr]; subst. apply IH.
+      + assumption.
+      + intros s0 H0. apply Hloc. right. assumption.
+      + apply tset_aliases_NoDup; [assumption|]. intros H. destruct (Hdis _ H) as [H1 _]. apply H1. left. reflexivity.
+      + intros a Ha. apply tset_aliases_In in Ha as [->|Ha].
+        * split; [exact Hs|]. apply Hloc. left. reflexivity.
+        * destruct (Hdis a Ha) as [H1 H2]. split; [|assumption]. intros H. apply H1. right. assumption. }
+  apply G; [assumption| |constructor|intros a []].
+  intros s Hs. rewrite forallb_forall in Hl. specialize (Hl s Hs).
   rewrite !andb_true_iff, !negb_true_iff in Hl. destruct Hl as [[Hl _] _].
   apply mem_false. assumption.
 Qed.
@@ -233,10 +253,12 @@ Lemma find_interface_aliases e specs priv emb t :
   forall i, In i (snd (find_interface e specs priv emb t)) -> ~ In (i_alias i) (e_locals e).
 Proof.
   intros Hu Hs. unfold find_interface, to_iface.
-  pose proof (to_iface_table_ok e priv emb true (calc_imports e specs) t Hu
-                (proj1 (calc_imports_ok e specs Hs))) as H.
-  destruct (to_iface_gen e priv emb true (calc_imports e specs) t) as [ms st]. cbn [snd] in *.
-  apply table_ok_active. assumption.
+  set (e' := handler_env e specs).
+  assert (Hok : table_ok e' (calc_imports e specs)).
+  { destruct (calc_imports_ok e specs Hs) as [H1 H2]. split; assumption. }
+  pose proof (to_iface_table_ok e' priv emb true (calc_imports e specs) t Hu Hok) as H.
+  destruct (to_iface_gen e' priv emb true (calc_imports e specs) t) as [ms st]. cbn [snd] in *.
+  apply (table_ok_active e'). assumption.
 Qed.
 
 (* the whole pipeline without the hypothesis alias_injective *)
@@ -253,8 +275,9 @@ Proof.
   intros Hu Hs Hf.
   destruct (find_interface_aliases e specs priv emb t Hu Hs) as [Hinj Hloc]. rewrite Hf in Hinj, Hloc.
   cbn [snd] in *. unfold find_interface in Hf.
-  destruct (to_iface e priv emb (calc_imports e specs) t) as [ms st] eqn:Ei. injection Hf as <- <-.
-  destruct (interface_ok e local priv emb _ _ _ _ Ei) as [Hn Hall].
+  destruct (to_iface (handler_env e specs) priv emb (calc_imports e specs) t) as [ms st] eqn:Ei.
+  injection Hf as <- <-.
+  destruct (interface_ok (handler_env e specs) local priv emb _ _ _ _ Ei) as [Hn Hall].
   split; [assumption|]. split; [assumption|]. split; [assumption|].
   eapply Forall_impl; [|exact Hall]. intros m [m0 [H1 [H2 [H3 H4]]]].
   exists m0. split; [assumption|]. split; [assumption|]. split; [assumption|]. auto.
@@ -264,7 +287,7 @@ Qed.
 (* import ("x/a/util"; "x/sib"); type Original struct{ sib.E }; func (sib.E) M(t util.T) with util
    = "x/b/util"; func (Original) Own(x util.X) with util = "x/a/util" *)
 Definition ex_clash_env (unique : bool) : env :=
-  Env "x/p" [("x/a/util", "util"); ("x/sib", "sib")] ["Original"] unique.
+  Env "x/p" [("x/a/util", "util"); ("x/sib", "sib")] ["Original"] unique [].
 Definition ex_clash_specs : list (string * option string) := [("x/a/util", None); ("x/sib", None)].
 Definition ex_clash_tree : tree :=
   Tr (TNamed (Some ("x/p", "p")) "Original" [])
@@ -288,6 +311,190 @@ Proof.
   - vm_compute. intros H. inversion H as [|? ? Hx Hr]; subst. apply Hx. simpl. auto.
   - vm_compute. repeat split; reflexivity.
 Qed.
+
+(* ------------------------------------------------------------------ rendering twice *)
+(* ParamsFromSignatureTuple renders the type arguments of a generic parameter type a second time
+   (Param.TypeArgNames).  A type whose packages are all in use already is rendered without
+   touching the table, and after a type has been rendered its packages are in use — for good. *)
+Definition covered (e : env) (st : table) (pp : string * string) : Prop :=
+  String.eqb (fst pp) (e_self e) = true \/ exists i, tget st (fst pp) = Some i /\ i_in_use i = true.
+Definition covers (e : env) (st : table) (t : ty) : Prop := forall pp, In pp (ty_pkgs t) -> covered e st pp.
+
+Lemma tset_same : forall st i, tget st (i_path i) = Some i -> tset st i = st.
+Proof.
+  induction st as [|k r IH]; intros i H; simpl in *; [discriminate|].
+  destruct (String.eqb (i_path i) (i_path k)); [injection H as ->; reflexivity|]. f_equal. apply IH. assumption.
+Qed.
+
+Lemma add_named_covered e st pp : covered e st pp -> snd (add_named e st (Some pp)) = st.
+Proof.
+  destruct pp as [p pn]. intros [H|[i [Hg Hu]]]; unfold add_named; cbn [fst] in *.
+  - rewrite H. reflexivity.
+  - destruct (String.eqb p (e_self e)); [reflexivity|]. rewrite Hg. cbn [snd].
+    pose proof (tget_path _ _ _ Hg) as Hp. apply tset_same. cbn [i_path].
+    rewrite Hg. destruct i as [ip ia ik iu]. cbn in *. subst. reflexivity.
+Qed.
+
+Lemma covered_extends e st st' pp : extends st st' -> covered e st pp -> covered e st' pp.
+Proof.
+  intros Hx [H|[i [Hg Hu]]]; [left; assumption|]. right.
+  destruct (Hx _ _ Hg Hu) as [i' [Hg' [Hu' _]]]. eauto.
+Qed.
+
+Lemma covered_add e st pkg pp : covered e st pp -> covered e (snd (add_named e st pkg)) pp.
+Proof.
+  intros H. destruct (add_named e st pkg) as [q st1] eqn:Ea.
+  destruct (add_named_spec _ _ _ _ _ Ea) as [Hx _]. eapply covered_extends; eauto.
+Qed.
+
+Lemma add_named_covers e st pp : covered e (snd (add_named e st (Some pp))) pp.
+Proof.
+  destruct (add_named e st (Some pp)) as [q st1] eqn:Ea.
+  destruct (add_named_spec _ _ _ _ _ Ea) as [_ Hq]. unfold qual_ok in Hq. destruct pp as [p pn]. unfold covered. cbn [fst snd].
+  destruct (String.eqb p (e_self e)); [left; reflexivity|]. right.
+  destruct Hq as [i [_ [Hg Hu]]]. eauto.
+Qed.
+
+Section Twice.
+  Variable e : env.
+
+  Definition idem (t : ty) : Prop := forall st, covers e st t -> snd (extract e st t) = st.
+
+  Lemma extract_list_idem : forall l, Forall idem l ->
+    forall st, (forall t, In t l -> covers e st t) -> snd (extract_list e st l) = st.
+  Proof.
+    induction l as [|t r IH]; intros Hk st Hc; simpl; [reflexivity|].
+    inversion Hk as [|? ? Ht Hr]; subst.
+    pose proof (Ht st (Hc t (or_introl eq_refl))) as H1.
+    destruct (extract e st t) as [x s1]. cbn [snd] in H1. subst s1.
+    pose proof (IH Hr st (fun u Hu => Hc u (or_intror Hu))) as H2.
+    destruct (extract_list e st r) as [xr s2]. exact H2.
+  Qed.
+
+  Lemma tuple_idem : forall l, Forall (fun p : pinfo * ty => idem (snd p)) l ->
+    forall st v, (forall p, In p l -> covers e st (snd p)) -> snd (params_from_tuple e st v l) = st.
+  Proof.
+    induction l as [|[pi t] r IH]; intros Hk st v Hc; simpl; [reflexivity|].
+    inversion Hk as [|? ? Ht Hr]; subst. cbn [snd] in Ht.
+    pose proof (Ht st (Hc _ (or_introl eq_refl))) as H1.
+    destruct (extract e st t) as [x s1]. cbn [snd] in H1. subst s1.
+    pose proof (IH Hr st v (fun u Hu => Hc u (or_intror Hu))) as H2.
+    destruct (params_from_tuple e st v r) as [xr s2]. exact H2.
+  Qed.
+
+  Lemma extract_idem : forall t, idem t.
+  Proof.
+    induction t as [s|pkg n targs IH|y IH|y IH|k y IH|k v IHk IHv|ps v rs IHp IHr] using ty_ind';
+      intros st Hc.
+    - reflexivity.
+    - rewrite extract_named.
+      assert (H1 : snd (add_named e st pkg) = st).
+      { destruct pkg as [pp|]; [|reflexivity]. apply add_named_covered. apply Hc. simpl. left. reflexivity. }
+      destruct (add_named e st pkg) as [q st1]. cbn [snd] in H1. subst st1.
+      pose proof (extract_list_idem targs IH st) as H2.
+      destruct (extract_list e st targs) as [args st2]. apply H2.
+      intros t Ht pp Hpp. apply Hc. simpl. apply in_or_app. right. apply in_flat_map. eauto.
+    - simpl. specialize (IH st Hc). destruct (extract e st y). exact IH.
+    - simpl. specialize (IH st Hc). destruct (extract e st y). exact IH.
+    - simpl. specialize (IH st Hc). destruct (extract e st y). exact IH.
+    - simpl. assert (Hk : covers e st k) by (intros pp H; apply Hc; simpl; apply in_or_app; auto).
+      assert (Hv : covers e st v) by (intros pp H; apply Hc; simpl; apply in_or_app; auto).
+      specialize (IHk st Hk). destruct (extract e st k) as [rk s1]. cbn [snd] in IHk. subst s1.
+      specialize (IHv st Hv). destruct (extract e st v) as [rv s2]. exact IHv.
+    - rewrite extract_func.
+      pose proof (tuple_idem ps IHp st v) as H1.
+      destruct (params_from_tuple e st v ps) as [xi s1]. cbn [snd] in H1.
+      rewrite H1 in *.
+      2:{ intros p Hin pp Hpp. apply Hc. simpl. apply in_or_app. left. apply in_flat_map. eauto. }
+      pose proof (tuple_idem rs IHr st false) as H2.
+      destruct (params_from_tuple e st false rs) as [xo s2]. cbn [snd] in H2.
+      destruct (ensure_param_names (map fst ps) (map fst rs)) as [ni no]. apply H2.
+      intros p Hin pp Hpp. apply Hc. simpl. apply in_or_app. right. apply in_flat_map. eauto.
+  Qed.
+
+  (* once rendered, covered *)
+  Definition covered_after (t : ty) : Prop := forall st, covers e (snd (extract e st t)) t.
+
+  Lemma keeps_covered pp t st : covered e st pp -> covered e (snd (extract e st t)) pp.
+  Proof.
+    apply (extract_keeps e (fun s => covered e s pp) (fun s pk => covered_add e s pk pp)).
+  Qed.
+
+  Lemma extract_list_covered : forall l, Forall covered_after l ->
+    forall st t, In t l -> covers e (snd (extract_list e st l)) t.
+  Proof.
+    induction l as [|u r IH]; intros Hk st t Hin; [contradiction|].
+    inversion Hk as [|? ? Hu Hr]; subst. simpl.
+    pose proof (Hu st) as H1.
+    destruct (extract e st u) as [x s1] eqn:E1. cbn [snd] in H1.
+    pose proof (IH Hr s1) as H2.
+    assert (K : forall pp, covered e s1 pp -> covered e (snd (extract_list e s1 r)) pp).
+    { intros pp Hcv. apply (extract_list_keeps e (fun s => covered e s pp) r); [|exact Hcv].
+      apply Forall_forall. intros z _ s0 Hs. apply keeps_covered. exact Hs. }
+    destruct (extract_list e s1 r) as [xr s2]. cbn [snd] in *.
+    destruct Hin as [<-|Hin]; [intros pp Hpp; apply K, H1; assumption|apply H2; assumption].
+  Qed.
+
+  Lemma tuple_covered : forall l, Forall (fun p : pinfo * ty => covered_after (snd p)) l ->
+    forall st v p, In p l -> covers e (snd (params_from_tuple e st v l)) (snd p).
+  Proof.
+    induction l as [|[pi u] r IH]; intros Hk st v p Hin; [contradiction|].
+    inversion Hk as [|? ? Hu Hr]; subst. cbn [snd] in Hu. simpl.
+    pose proof (Hu st) as H1.
+    destruct (extract e st u) as [x s1] eqn:E1. cbn [snd] in H1.
+    pose proof (IH Hr s1 v) as H2.
+    assert (K : forall pp, covered e s1 pp -> covered e (snd (params_from_tuple e s1 v r)) pp).
+    { intros pp Hcv. apply (tuple_keeps e (fun s => covered e s pp) r); [|exact Hcv].
+      apply Forall_forall. intros z _ s0 Hs. apply keeps_covered. exact Hs. }
+    destruct (params_from_tuple e s1 v r) as [xr s2]. cbn [snd] in *.
+    destruct Hin as [<-|Hin]; [cbn [snd]; intros pp Hpp; apply K, H1; assumption|apply H2; assumption].
+  Qed.
+
+  Lemma extract_covered : forall t, covered_after t.
+  Proof.
+    induction t as [s|pkg n targs IH|y IH|y IH|k y IH|k v IHk IHv|ps v rs IHp IHr] using ty_ind';
+      intros st.
+    - intros pp [].
+    - rewrite extract_named.
+      pose proof (extract_list_covered targs IH) as HL.
+      destruct (add_named e st pkg) as [q st1] eqn:Ea.
+      assert (K : forall pp, covered e st1 pp -> covered e (snd (extract_list e st1 targs)) pp).
+      { intros pp Hcv. apply (extract_list_keeps e (fun s => covered e s pp) targs); [|exact Hcv].
+        apply Forall_forall. intros z _ s0 Hs. apply keeps_covered. exact Hs. }
+      specialize (HL st1).
+      destruct (extract_list e st1 targs) as [args st2]. cbn [snd] in *.
+      intros pp Hpp. simpl in Hpp. apply in_app_or in Hpp as [Hpp|Hpp].
+      + destruct pkg as [p0|]; [|contradiction]. destruct Hpp as [<-|[]].
+        apply K. pose proof (add_named_covers e st p0) as H. rewrite Ea in H. exact H.
+      + apply in_flat_map in Hpp as [t [Ht Hpp]]. apply (HL t Ht). assumption.
+    - simpl. specialize (IH st). destruct (extract e st y). exact IH.
+    - simpl. specialize (IH st). destruct (extract e st y). exact IH.
+    - simpl. specialize (IH st). destruct (extract e st y). exact IH.
+    - simpl. specialize (IHk st). destruct (extract e st k) as [rk s1] eqn:Ek. cbn [snd] in IHk.
+      specialize (IHv s1). pose proof (fun pp => keeps_covered pp v s1) as K.
+      destruct (extract e s1 v) as [rv s2]. cbn [snd] in *.
+      intros pp Hpp. simpl in Hpp. apply in_app_or in Hpp as [Hpp|Hpp]; [apply K, IHk; assumption|apply IHv; assumption].
+    - rewrite extract_func.
+      pose proof (tuple_covered ps IHp st v) as H1.
+      destruct (params_from_tuple e st v ps) as [xi s1] eqn:E1. cbn [snd] in H1.
+      pose proof (tuple_covered rs IHr s1 false) as H2.
+      assert (K : forall pp, covered e s1 pp -> covered e (snd (params_from_tuple e s1 false rs)) pp).
+      { intros pp Hcv. apply (tuple_keeps e (fun s => covered e s pp) rs); [|exact Hcv].
+        apply Forall_forall. intros z _ s0 Hs. apply keeps_covered. exact Hs. }
+      destruct (params_from_tuple e s1 false rs) as [xo s2]. cbn [snd] in *.
+      destruct (ensure_param_names (map fst ps) (map fst rs)) as [ni no]. cbn [snd].
+      intros pp Hpp. simpl in Hpp. apply in_app_or in Hpp as [Hpp|Hpp]; apply in_flat_map in Hpp as [p [Hp Hpp]].
+      + apply K. apply (H1 p Hp). assumption.
+      + apply (H2 p Hp). assumption.
+  Qed.
+
+  (* rendering a type again, right after it (or anything containing it) was rendered, changes nothing *)
+  Lemma extract_again t st u : (forall pp, In pp (ty_pkgs u) -> In pp (ty_pkgs t)) ->
+    snd (extract e (snd (extract e st t)) u) = snd (extract e st t).
+  Proof.
+    intros Hsub. apply extract_idem. intros pp Hpp. apply (extract_covered t st). apply Hsub. assumption.
+  Qed.
+End Twice.
 
 (* ------------------------------------------------------------------ rendering is injective *)
 (* two types that are rendered as the same reference by one handler (in whatever states, as long
